@@ -33,6 +33,7 @@ MC = {
     "C12": [mc("MC_LibIt", "MC_LibIt")],
     "C13": [mc("MC_QVec", "MC_QVec")],
     "C15": [mc("HuffWM", "MC_HuffWM_k4_quick", "MC_HuffWM_k4"), mc("HuffWM", "MC_HuffWM_k2_quick", "MC_HuffWM_k2")],
+    "C17": [mc("Words", "MC_Words", workers=6)],
     "C19": [mc("MC_BitVecLines", "MC_BitVecLines", "MC_BitVecLines_thorough")],
 }
 
